@@ -60,8 +60,8 @@ var xPrefixes = []xdeco{{"", ""}, {"SP", " "}, {"SPSP", "  "}, {"TAB", "\t"}}
 var xSuffixes = []xdeco{{"", ""}, {"SP", " "}, {"TAB", "\t"}, {"CR", "\r"}, {"CRCR", "\r\r"}, {"COMMA", ","}}
 var xContexts = []string{"alone", "after-net", "eof"}
 
-// bases x decorations that are also compared on a real RocksDB (line alone in the file)
-var xDBBases = map[string]bool{"Z42": true, "net": true, "a": true, "Z1": true}
+// base lines that are also compared on a real RocksDB (line alone in the file, no prefix, every suffix)
+var xDBBases = map[string]bool{"Z42": true, "net": true, "Z1": true}
 
 func xKey(b, p, s, c int) string {
 	return "lex:" + xBases[b].name + "~" + xPrefixes[p].name + "~" + xSuffixes[s].name + "~" + xContexts[c]
@@ -97,7 +97,7 @@ func lexicalFiles() []xfile {
 					case "eof":
 						text = line
 					}
-					f := xfile{family: "lex", key: xKey(b, p, s, c), text: []byte(text), db: c == 0 && xDBBases[xBases[b].name]}
+					f := xfile{family: "lex", key: xKey(b, p, s, c), text: []byte(text), db: c == 0 && p == 0 && xDBBases[xBases[b].name]}
 					for _, q := range xSimplerDeco(xPrefixes, p) {
 						f.simpler = append(f.simpler, xKey(b, q, s, c))
 					}
@@ -164,29 +164,48 @@ type xStats struct {
 	maxOutputBytes                                int64
 }
 
-// runExtras evaluates the additional families and reports their minimal failing files.
-func runExtras(r *vlib.Run, dir string, noDB bool) *xStats {
-	st := &xStats{}
-	files := append(bulkFiles(), lexicalFiles()...)
+// xRun is the evaluation of the additional families: started before part 1 (the database comparisons are
+// latency-bound), results stored by file index, reported by finish.
+type xRun struct {
+	st    *xStats
+	files []xfile
+	res   []xres
+	pres  [][]byte
+	noDB  bool
+	done  chan struct{}
+}
+
+func startExtras(dir string, noDB bool) *xRun {
+	x := &xRun{st: &xStats{}, files: append(bulkFiles(), lexicalFiles()...), noDB: noDB, done: make(chan struct{})}
+	x.res = make([]xres, len(x.files))
+	x.pres = make([][]byte, len(x.files))
+	go func() {
+		defer close(x.done)
+		vlib.ParallelFor(len(x.files), func(i int) {
+			f := x.files[i]
+			pre, perr := preprocess(f.text)
+			x.pres[i] = pre
+			for bi := range pbackends {
+				x.res[i].mem[bi] = compareMem(bi == 1, f.text, pre, perr)
+				atomic.AddInt64(&x.st.memPairs, 1)
+				if f.db && !noDB {
+					x.res[i].db[bi] = compareDB(dir, pbackends[bi], f.text, pre, perr)
+					atomic.AddInt64(&x.st.dbPairs, 1)
+				}
+			}
+		})
+	}()
+	return x
+}
+
+// finish reports the minimal failing files of the additional families.
+func (x *xRun) finish(r *vlib.Run) *xStats {
+	<-x.done
+	st, files, res, pres, noDB := x.st, x.files, x.res, x.pres, x.noDB
 	index := map[string]int{}
 	for i, f := range files {
 		index[f.key] = i
 	}
-	res := make([]xres, len(files))
-	pres := make([][]byte, len(files))
-	vlib.ParallelFor(len(files), func(i int) {
-		f := files[i]
-		pre, perr := preprocess(f.text)
-		pres[i] = pre
-		for bi := range pbackends {
-			res[i].mem[bi] = compareMem(bi == 1, f.text, pre, perr)
-			atomic.AddInt64(&st.memPairs, 1)
-			if f.db && !noDB {
-				res[i].db[bi] = compareDB(dir, pbackends[bi], f.text, pre, perr)
-				atomic.AddInt64(&st.dbPairs, 1)
-			}
-		}
-	})
 	type agg struct {
 		backends map[string]bool
 		detail   string
